@@ -119,7 +119,7 @@ def shaped_jobs(tier, excl, onl, term=False):
 def main(tier):
     ck = propcheck.Check('C02', tier)
     N, heavy = (7, 6) if tier == 'quick' else (12, 8)
-    ck.assumptions += ['assume-guarantee decomposition of Operator.complete: one lemma per clean-up pass on text of the shape the previous passes guarantee (PG+: ASCII, every backslash starts an escape, unescaped parentheses balance, "(?" opens a well-formed group)',
+    ck.assumptions += ['assume-guarantee decomposition of Operator.complete: one lemma per clean-up pass on text of the shape the previous passes guarantee (PG+: ASCII, every backslash starts an escape, unescaped parentheses balance, "(?" opens a well-formed group, a flags-only group is not quantified, no group body or alternative starts with a quantifier, the body of a flag group is not empty)',
                        'text length fixed per job (every length 0..N decided separately); text after useHexEscapes is printable ASCII (lemma 1), which licenses byte = rune in the regexp oracle',
                        'rassemble.Join / regexp/syntax are not encoded; "parses as RE2" is decided on the translation-validation family of C01, not here',
                        'non-ASCII (2..4 byte UTF-8) input to useHexEscapes is outside this bound']
